@@ -85,6 +85,23 @@ func isNotDefineNamedArgError(
 	return true
 }
 
+// stampCallSiteT is the parameter's own copy of what a call site passed, its
+// classes tagged with the round they were seen in.
+func stampCallSiteT(argT *base.T, round string) *base.T {
+	stampedT := argT.DeepCopy()
+	stampedT.Round = round
+
+	if stampedT.IsUnionType() {
+		variants := stampedT.GetVariants()
+
+		for i := range variants {
+			variants[i].Round = round
+		}
+	}
+
+	return stampedT
+}
+
 func propagationForCalledTo(
 	m *MethodEvaluator,
 	class, definedArg string,
@@ -118,7 +135,7 @@ func propagationForCalledTo(
 				methodT.DefinedClass,
 				m.method,
 				definedArg,
-				argT,
+				stampCallSiteT(argT, m.ctx.GetRound()),
 				methodT.IsStatic,
 			)
 		default:
@@ -127,7 +144,7 @@ func propagationForCalledTo(
 				class,
 				m.method,
 				definedArg,
-				argT,
+				stampCallSiteT(argT, m.ctx.GetRound()),
 				methodT.IsStatic,
 			)
 		}
@@ -139,8 +156,23 @@ func propagationForCalledTo(
 		return false
 	}
 
+	// what the call sites passed is remembered for one round: the sites of
+	// the previous round and of this one make up the parameter's type, so a
+	// site written before the definition already sees the classes of all the
+	// others, while a placeholder from the first rounds does not stay for ever
+	round, previousRound := m.ctx.GetRound(), m.ctx.GetPreviousRound()
+
+	if definedArgT.IsUnionType() && (definedArgT.HasDefault() || definedArgT.IsInfferedFromCall()) {
+		definedArgT.ExpireVariants(round, previousRound)
+	}
+
 	if definedArgT.IsUnionType() && definedArgT.HasDefault() {
-		definedArgT.AppendVariant(*argT)
+		for _, variant := range argT.GetVariantsOrSelf() {
+			variant.Round = round
+			definedArgT.AppendVariant(variant)
+		}
+
+		definedArgT.TouchVariant(argT, round)
 
 		return true
 	}
@@ -183,7 +215,7 @@ func propagationForCalledTo(
 					methodT.DefinedClass,
 					m.method,
 					definedArg,
-					argT,
+					stampCallSiteT(argT, m.ctx.GetRound()),
 					methodT.IsStatic,
 				)
 			default:
@@ -192,7 +224,7 @@ func propagationForCalledTo(
 					class,
 					m.method,
 					definedArg,
-					argT,
+					stampCallSiteT(argT, m.ctx.GetRound()),
 					methodT.IsStatic,
 				)
 			}
@@ -202,13 +234,19 @@ func propagationForCalledTo(
 	}
 
 	if definedArgT.IsUnionType() && definedArgT.IsInfferedFromCall() {
-		definedArgT.AppendVariant(*argT)
+		for _, variant := range argT.GetVariantsOrSelf() {
+			variant.Round = round
+			definedArgT.AppendVariant(variant)
+		}
+
+		definedArgT.TouchVariant(argT, round)
 
 		return true
 	}
 
+	// a placeholder, or a single class last passed two rounds ago, is replaced
 	if definedArgT.Round != "" && definedArgT.Round != argT.Round &&
-		(definedArgT.IsUnknownType() || definedArgT.IsAnyType()) {
+		(definedArgT.IsUnknownType() || definedArgT.IsAnyType() || definedArgT.Round != previousRound) {
 		argT.SetIsInfferedFromCall(true)
 
 		definedArgT :=
@@ -227,7 +265,7 @@ func propagationForCalledTo(
 				methodT.DefinedClass,
 				m.method,
 				definedArg,
-				argT,
+				stampCallSiteT(argT, m.ctx.GetRound()),
 				methodT.IsStatic,
 			)
 		default:
@@ -236,7 +274,7 @@ func propagationForCalledTo(
 				class,
 				m.method,
 				definedArg,
-				argT,
+				stampCallSiteT(argT, m.ctx.GetRound()),
 				methodT.IsStatic,
 			)
 		}
@@ -245,6 +283,10 @@ func propagationForCalledTo(
 	}
 
 	if definedArgT.IsMatchType(argT) {
+		if definedArgT.IsInfferedFromCall() && definedArgT.Round != "" {
+			definedArgT.Round = round
+		}
+
 		return true
 	}
 
@@ -255,14 +297,13 @@ func propagationForCalledTo(
 		case base.UNION:
 			unionVariants = append(unionVariants, definedArgT.GetVariants()...)
 		default:
+			// (the default's own class carries no round: it never expires)
 			unionVariants = append(unionVariants, *definedArgT)
 		}
 
-		switch argT.GetType() {
-		case base.UNION:
-			unionVariants = append(unionVariants, argT.GetVariants()...)
-		default:
-			unionVariants = append(unionVariants, *argT)
+		for _, variant := range argT.GetVariantsOrSelf() {
+			variant.Round = round
+			unionVariants = append(unionVariants, variant)
 		}
 
 		unionT := base.MakeUnion(unionVariants).UnifyVariants()
